@@ -379,49 +379,58 @@ def r6_constructor(R) -> None:
     R.check(len(rs) == 1, QI, 'span-mismatch-raises', 'differing spans raise InitialisationError',
             'the span mismatch branch does not raise InitialisationError', where=f'{fi.module.relpath}:{tn.lineno}')
     # every non-base submodel is compared: the test is in a loop over the remaining identifiers
+    from rules.common import Fn
+    f = Fn(R, QI)
+    # what names the submodel mapping: the attribute lookups, and a parameter stored under 'submodels' unchanged
+    lookups = set(SUBMODEL_LOOKUPS)
+    for n in f.cfg.nodes:
+        a_ = n.ast
+        if n.kind == 'stmt' and isinstance(a_, ast.Assign) and len(a_.targets) == 1:
+            ds = dict_slot(a_.targets[0])
+            if ds and ds[0] == 'self' and is_const(ds[1], 'submodels') and isinstance(a_.value, ast.Name):
+                # the local keeps naming the stored mapping as long as it is not rebound after the store
+                later = [d for d in f.assigns_to(a_.value.id) if f.cfg.reaches(n.id, d.id)]
+                if not later:
+                    lookups.add(a_.value.id)
     lp = [cfg.nodes[i] for i in tn.loops]
     ok = False
     if lp and isinstance(lp[-1].ast.iter, ast.Name):
         itn = lp[-1].ast.iter.id
         vals = lf.values_reaching(lp[-1].id, itn)
         for (s, v) in vals:
-            if v is not None and isinstance(v, ast.Call) and dotted(v.func) == 'iter' and text(v.args[0]) in SUBMODEL_LOOKUPS:
+            if v is not None and isinstance(v, ast.Call) and dotted(v.func) == 'iter' and text(v.args[0]) in lookups:
                 ok = True
     R.check(ok, QI, 'span-compare-all', 'every submodel after the first is compared with the first',
             'the span comparison does not iterate over all remaining submodels', where=f'{fi.module.relpath}:{tn.lineno}')
-    # lags / leads folded with max over LAGS / LEADS
-    for nm, attr in (('lags', 'LAGS'), ('leads', 'LEADS')):
-        folds = []
-        inits = []
-        for n in cfg.nodes:
-            a = n.ast
-            if n.kind == 'stmt' and isinstance(a, ast.Assign):
-                tg = [text(t) for t in a.targets]
-                if nm in tg:
-                    if lp and lp[-1].id in n.loops:
-                        folds.append((n, a))
-                    else:
-                        inits.append((n, a))
+    # lags / leads: what is stored as _LAGS / _LEADS is folded with max over the submodels' LAGS / LEADS
+    for attr, key in (('LAGS', '_LAGS'), ('LEADS', '_LEADS')):
+        st = [n for n in f.cfg.nodes if n.kind == 'stmt' and isinstance(n.ast, ast.Assign) and len(n.ast.targets) == 1 and dict_slot(n.ast.targets[0]) is not None
+              and dict_slot(n.ast.targets[0])[0] == 'self' and is_const(dict_slot(n.ast.targets[0])[1], key)]
+        if not R.require(QI, len(st), f"self.__dict__['{key}'] = <longest {attr.lower()}>", fi=fi, pred=lambda x, key=key: isinstance(x, ast.Constant) and x.value == key):
+            continue
+        src = st[0].ast.value
+        if not isinstance(src, ast.Name):
+            raise Unsupported(f'{QI}: `{key}` receives `{text(src)[:40]}`, not a local')
+        nm = src.id
+        folds, inits = [], []
+        for d in f.vdefs(nm):
+            (folds if (lp and lp[-1].id in d.node.loops) else inits).append(d)
         if not R.expect(QI, len(folds), 1, f'`{nm} = max({nm}, <submodel>.{attr})` in the loop'):
             continue
-        n, a = folds[0]
-        v = a.value
-        ok = isinstance(v, ast.Call) and dotted(v.func) == 'max' and len(v.args) == 2 and \
-            sorted(text(x).split('.')[-1] for x in v.args) == sorted([nm, attr]) and any(text(x) == nm for x in v.args)
-        R.check(ok, QI, f'fold:{nm}:' + text(v), f'linker {nm} = maximum over submodels', f'`{text(a)}` is not `{nm} = max({nm}, <submodel>.{attr})`',
-                where=f'{fi.module.relpath}:{n.lineno}')
-        base_ok = any(text(x.value).endswith('.' + attr) for (_n, x) in inits)
-        R.check(base_ok, QI, f'fold-init:{nm}', f'{nm} starts from the first submodel', f'`{nm}` is not initialised from the first submodel\'s {attr}',
-                where=fi.where)
-    # stored as _LAGS / _LEADS
-    for nm, key in (('lags', '_LAGS'), ('leads', '_LEADS')):
-        ok = False
-        for n in iter_own_nodes(fi.node):
-            if isinstance(n, ast.Assign) and len(n.targets) == 1:
-                ds = dict_slot(n.targets[0])
-                if ds and is_const(ds[1], key) and text(n.value) == nm:
-                    ok = True
-        R.check(ok, QI, f'store:{key}', f'{key} receives {nm}', f"`self.__dict__['{key}'] = {nm}` not found (crossed or missing)", where=fi.where)
+        d = folds[0]
+        v = d.value
+        ok = isinstance(v, ast.Call) and dotted(v.func) == 'max' and len(v.args) == 2 and not v.keywords \
+            and any(text(x) == nm for x in v.args) and any(isinstance(x, ast.Attribute) and x.attr == attr for x in v.args)
+        if ok:
+            other = [x for x in v.args if text(x) != nm][0]
+            # the submodel read is the one of this iteration
+            owner = f.etext(d.node.id, other.value, stop=tuple(x.id for x in ast.walk(lp[-1].ast.target) if isinstance(x, ast.Name)))
+            ok = any(owner == f'{lk}[{text(lp[-1].ast.target)}]' for lk in lookups)
+        R.check(ok, QI, f'fold:{attr}:' + text(v)[:50], f'linker {attr} = maximum over submodels', f'`{nm} = {text(v)[:60]}` is not `{nm} = max({nm}, <submodel of this iteration>.{attr})`',
+                where=f.where(d.node))
+        base_ok = any(isinstance(x.value, ast.Attribute) and x.value.attr == attr for x in inits)
+        R.check(base_ok, QI, f'fold-init:{attr}', f'{attr} starts from the first submodel', f'`{nm}` is not initialised from the first submodel\'s {attr}', where=fi.where)
+        R.ok(QI, f'{key} receives the folded value')
     for prop_, key in (('LAGS', '_LAGS'), ('LEADS', '_LEADS')):
         pf = R.repo.func(f'fsic.core.linkers.BaseLinker.{prop_}')
         rets = [n for n in ast.walk(pf.node) if isinstance(n, ast.Return)]
